@@ -20,6 +20,54 @@ CHECKS = {
    note=TRUST+"The reference shredder/assembler reproduce the Dremel paper's fig. 2/3 tables exactly (ref/dremel test)."),
 }
 
+CHECKS.update({
+ "C04": dict(cat="exploration", tech="differential reading: an independent reference WRITER emits conformant files with every legal encoding freedom drawn at random; the generated reader's rows are compared with the source records",
+   text="Files are produced by ref/pqfile.WriteFile from reference-shredded records, never by the library: level run segmentation (5 styles incl. length-1 RLE runs and >63-group bit-packed runs), per-column page boundaries, per-chunk codec, literal-only vs copy snappy, gzip levels, statistics present/partial/absent, CRC, optional and unknown thrift fields, long-form field headers, opaque bytes before the footer, BIT_PACKED level encoding named on level-less columns. Each file is re-validated by the reference parser and then read by the generated reader. Observation floors require >63-group runs, 2-byte run headers, mixed codecs and per-column page splits to have actually been read.",
+   note=TRUST+"Conformance is the reference's reading of parquet-format; zero-length runs and non-zero padding bits are deliberately not generated (the specification is silent)."),
+ "C05": dict(cat="translation_validation", tech="translation validation of the code generator: every program of a bounded struct grammar is generated, compiled and validated on its inputs by the C02/C03/C01 runtime monitors",
+   text="Each struct shape of the bounded grammar (quick: all 1209 shapes with <=4 schema nodes, depth <=3; thorough: all 9471 with <=5 nodes plus 2000 fixed 6-8 node shapes) is fed to a parquetgen built from the current tree, twice (determinism), compiled, and run on every structurally distinct record (alone, together at page sizes 1/2/1000, in 3 batches) plus seeded random multi-row-group files; the file-validity, striping and round-trip monitors judge each. A failing program is a disagreement identified by (shape signature, failure kind) and matched against known_findings.json; unlisted failures are violations.",
+   note=TRUST+"~21% of the <=4-node shapes are broken on the pinned tree (generator defects too large for a fix: commit); they are listed individually in known_findings.json. The shape set is seed-independent; values of the random files are seed-dependent."),
+ "C06": dict(cat="exploration", tech="online reference model over call histories: all Add/Write sequences up to a length bound executed against the real writer and compared with a batch-list model (file validity, row groups, striping, read-back)",
+   text="All 2^(L+1)-1 histories over {Add, Write} with L<=8 (thorough 12), terminated by Close, x page sizes 1..4 x 3 codecs on two shapes, plus seeded long histories with batches up to 3*page+1. For each, the model says which batches exist; the file must be valid (C02 checker), have exactly one row group per non-empty batch with the batch's striping, and read back as the batches' records.",
+   note=TRUST+"Exhaustive only up to the stated history length; the model treats records pending at Close as discarded, as the property states."),
+ "C07": dict(cat="exploration", tech="differential encode/decode against a strict specification decoder and a segmentation-parameterised specification encoder, on internal/rle directly and through the public column API",
+   text="Encoder: every level sequence up to a length bound per bit width (quick 14/8/5/4 for widths 1-4) plus run-structured sequences around the 8-value, 63-group and multi-byte-header boundaries is encoded by internal/rle and judged by ref/hybrid's strict decoder (length prefix, run headers, value width, padding < 8). Decoder: sequences re-encoded by the reference under all segmentations (short) or six seeded styles (incl. >63-group and 1-value runs) are decoded by internal/rle with trailing bytes present; values, padding and bytes consumed are checked. OptionalField.DoWrite/DoRead repeat both directions in situ.",
+   note=TRUST+"The driver module path is nested under the repository's so that internal/rle can be imported unmodified."),
+ "C08": dict(cat="fault_enumeration", tech="source wrapper enumerating read-fragmentation patterns; rows/errors compared with the full-read baseline",
+   text="For each workload file (portfolio x 3 codecs x single-page/multi-page/multi-row-group) the caller-owned io.ReadSeeker returns short reads: fixed chunks (quick 1..17 and a spread to 4096; thorough every 1..64,127,128,4095,4096), seeded random lengths, data-with-EOF, every k-th call short. Rows and errors must equal the full-read baseline. The monitor records which call sites of the repository received short reads (stack signature) and requires pageData to have been hit for every codec.",
+   note=TRUST+"(0, nil) reads are not generated (the io.Reader contract discourages them and the property does not list them)."),
+ "C09": dict(cat="fault_enumeration", tech="failing io.Writer wrapper: exhaustive enumeration of the index of the failing sink write per workload, three fault modes",
+   text="A fault-free run counts the sink writes N of each workload; every k in 0..N-1 is re-run with write k failing transiently, stickily, or partially (n=len/2 with the error). The API call in progress (labelled by the driver) must return a non-nil error; nothing may panic. Fault sites are classified by stack (magic, page header, required/optional page body, footer, footer length, trailing magic) and all seven must be hit.",
+   note=TRUST+"Exhaustive over k per workload; workloads are sampled (portfolio x codecs x 3 layouts)."),
+ "C10": dict(cat="fault_enumeration", tech="failing io.ReadSeeker wrapper: exhaustive enumeration of the index of the failing Read/Seek call per file, two fault modes, with and without fragmentation",
+   text="A fault-free read counts the source calls N (thousands: thrift reads byte-wise); every k in 0..N-1 is re-run with call k failing as (0, err) or (partial, err), once with a full-read source and once under chunk-7 fragmentation so that faults land inside page bodies. Either an error is reported (constructor or Error()) or the delivered rows are exactly the file's rows; no panic; iteration is bounded by a logical cap.",
+   note=TRUST+"Calling Next again after it returned false is outside the statement and not driven."),
+ "C11": dict(cat="fault_enumeration", tech="crash-point enumeration: every strict prefix of each workload file is opened and iterated",
+   text="Every prefix length 0..len-1 of 54 files (quick; 0.3-12 KiB) is handed to the generated reader; it must report an error and must not panic. Thorough adds 20-60 KiB files with every cut in the last 4 KiB, every page boundary +-8 bytes and 1500 seeded interior cuts. Cuts are classified with the reference parser (footer, length, magic, page header, page body, page boundary, between row groups) and all classes must be seen.",
+   note=TRUST+"Assumes string values never embed a complete Parquet file."),
+ "C12": dict(cat="exploration", tech="offline checker: page Statistics compared with values and levels decoded by the reference, in the column's order",
+   text="Files from P1/P2/P8 with value multisets aimed at accumulator bugs; every page's null_count must equal the number of entries below the maximum definition level and every present min/max (deprecated and _value pairs) must bound all non-null non-NaN values in signed, unsigned (UINT_32/64), IEEE or bytewise order; bounds must be absent on pages without values. Floors: every (type x required/optional/repeated) cell must have shown min/max; all-null, NaN and sentinel pages must have been seen.",
+   note=TRUST),
+ "C13": dict(cat="exploration", tech="Go race detector over concurrent independent instances with injected yields, plus a shadow allocator replacing bytebufferpool (poison/quarantine), plus differential outputs against sequential references",
+   text="Three run families over the same histories: (1) each history re-run after different polluter prefixes must give identical bytes/rows; (2) a -race build with the real pool runs G goroutines over their own instances with Gosched/sleep injected at sink writes, outputs compared with sequential references and race reports counted from the GORACE log; (3) the same against instr/bytebufferpool, which poisons released buffers, quarantines them, verifies the poison on reuse and hands buffers out with poisoned spare capacity. Evidence reports instances in flight, goroutine switches between sink writes, cross-goroutine buffer hand-overs.",
+   note=TRUST+"Schedules are sampled; the race detector sees only races that occur in a run. The early-Put mutant is caught by all three families."),
+ "C14": dict(cat="translation_validation", tech="metamorphic translation validation: decorated struct definitions must generate code whose files are byte-identical to the base's",
+   text="For base shapes without C05 findings, variants with an excluded field (16 forms) inserted at any position/nesting level, with a field at every position, and with a run of sibling fields moved into an embedded struct are generated and compiled; for the same records the variant's files must be byte-identical to the base's in three configurations, excluded fields (filled with junk before Add) must be zero after reading into a fresh struct, and values must read back.",
+   note=TRUST+"Bases are bounded (<=4 nodes quick, <=5 thorough); embedding inside optional/repeated groups is a listed finding (D13)."),
+ "C15": dict(cat="translation_validation", tech="three-stage pipeline validation: write with generated code, regenerate struct+reader with parquetgen -parquet, read back and compare by reflection and by value",
+   text="Every non-repeated shape with <=4 nodes (quick) is written by its generated writer; parquetgen -parquet regenerates a struct and reader from the file; the regenerated struct must have the same column paths, nesting, optionality and physical types (reflection under the README mapping) and its reader must return exactly the written values from three files per shape.",
+   note=TRUST+"Shapes whose structure C05 lists as broken are skipped (their failure is C05's)."),
+ "C16": dict(cat="exploration", tech="differential introspection: ReadMetaData/PageHeaders/PageHeadersAtOffset converted to field-id trees by reflection and compared with an independent thrift decode and page walk",
+   text="On library-written files and on foreign files from the reference writer (optional and unknown metadata present), the footer returned by ReadMetaData must equal the reference decode (restricted to field ids the repository's schema knows), PageHeaders must return exactly one header per data page in file order, and PageHeadersAtOffset(chunk start, n) must return the chunk's headers (one header for n=0).",
+   note=TRUST),
+ "C17": dict(cat="exploration", tech="exhaustive enumeration of the finite domain against a bit-at-a-time reference packer, for the checked-in package and a freshly generated one, plus in-situ groups through the column API",
+   text="All 2^8+4^8+8^8 tuples (and all 16^8 for width 4 in thorough; quick: all tuples with any 4 positions free over 16 values, rest in {0,15}) are packed by internal/bitpack and by a package freshly generated with cmd/bitpackgen from the current tree, compared with the LSB-first layout and unpacked; all w-byte groups are unpacked, compared and re-packed. Level sequences written/read through OptionalField.DoWrite/DoRead are unpacked by the reference.",
+   note=TRUST+"exhaustive: true only in the thorough tier (width 4 complete)."),
+ "C18": dict(cat="exploration", tech="hostile-input exploration: otherwise valid carrier files from the reference writer with one really-encoded unsupported feature per file; the reader must refuse",
+   text="For every column of the portfolio shapes and every applicable feature (dictionary page + RLE_DICTIONARY/PLAIN_DICTIONARY, dictionary page then plain pages, index page, data page v2, DELTA_BINARY_PACKED, DELTA_LENGTH_BYTE_ARRAY, DELTA_BYTE_ARRAY, BYTE_STREAM_SPLIT, RLE booleans, BIT_PACKED definition/repetition levels, LZO/BROTLI/LZ4/ZSTD/LZ4_RAW) placed in first/middle/last pages of first/later row groups, the generated reader must report an error and not panic.",
+   note=TRUST+"LZO bodies are opaque (rejection must come from the metadata); the other payloads are valid encodings written from their specifications."),
+})
+
 NOT_YET = {}
 
 def main():
